@@ -309,7 +309,7 @@ def main(argv):
                        'translator ports (akita Send panics otherwise)',
                        'the sampled histories only decide whether the real component still behaves like the model']
     thorough = vlib.tier() == 'thorough'
-    n = 3000 if thorough else 400
+    n = 3000 if thorough else 320
 
     replay_file = None
     if '--replay' in argv:
@@ -381,7 +381,7 @@ def main(argv):
     okc, mism, clog = vlib.eval_cases(PROP, HEADER, [c['coq'] for c in cases], shard_size=25)
     rep.obligation('correspondence: %d histories evaluated by the model' % len(cases), okc and not mism)
 
-    eng = [] if replay_file else engine_runs(['--engine-smoke', '400' if thorough else '60', '--seed', str(vlib.seed())])
+    eng = [] if replay_file else engine_runs(['--engine-smoke', '400' if thorough else '40', '--seed', str(vlib.seed())])
     eng_bad = [r for r in eng if r.get('problem')]
     if eng:
         rep.obligation('real engine: %d simulations (%d requests) ran to quiescence with every request answered once'
